@@ -212,9 +212,42 @@ def listing(d):
     return glob.glob(os.path.join(d, '*.db'))
 
 
+class Unreadable(list):
+    """what `read_file` returns when the LIBRARY's own reader raises on a store file: an empty entry list that remembers
+    the exception.  Such an exception is an observation about the real code (the property's collector would hit it
+    too), never infrastructure: callers turn it into an oracle failure with `unreadable_files`."""
+
+    def __init__(self, exc):
+        super().__init__()
+        self.cls = type(exc).__name__
+        self.msg = str(exc)
+
+
 def read_file(path):
     from prometheus_client.mmap_dict import MmapedDict
-    return [(k, v, t) for k, v, t, _ in MmapedDict.read_all_values_from_file(path)]
+    try:
+        return [(k, v, t) for k, v, t, _ in MmapedDict.read_all_values_from_file(path)]
+    except FileNotFoundError:
+        raise
+    except Exception as e:  # noqa  -- the library's reader failed on a file of the multiprocess directory
+        return Unreadable(e)
+
+
+def unreadable_files(snap):
+    """[(basename, exception class, message)] for the files of a snapshot the library's reader could not read"""
+    return [(bn, v.cls, v.msg) for bn, v in sorted(snap.items()) if isinstance(v, Unreadable)]
+
+
+def raw_snapshot(d):
+    """basename -> raw bytes of every *.db file (size and content, including the unused tail)"""
+    out = {}
+    for p in listing(d):
+        try:
+            with open(p, 'rb') as f:
+                out[os.path.basename(p)] = f.read()
+        except FileNotFoundError:
+            pass
+    return out
 
 
 def collect(d):
@@ -227,8 +260,14 @@ def collect(d):
 
 
 def snapshot(d):
-    """basename -> ordered [(key_json, value, ts)] for every *.db file"""
-    return {os.path.basename(p): read_file(p) for p in listing(d)}
+    """basename -> ordered [(key_json, value, ts)] for every *.db file (an `Unreadable` list where the reader raised)"""
+    out = {}
+    for p in listing(d):
+        try:
+            out[os.path.basename(p)] = read_file(p)
+        except FileNotFoundError:
+            pass
+    return out
 
 
 # ------------------------------------------------------------------------------------------------ canonical families
